@@ -40,4 +40,11 @@ def verdictOf : Outcome → String
 
 def setupVerdict (out : String) : String := verdictOf (classify out)
 
+
+/-- "Validation and a real start agree": the setup calls a start makes are the setup calls validation makes, in the
+same order, possibly cut short (only a start runs parsing callbacks, and one of them may fail); when no callback
+fails the two agree on the outcome as well. `v`, `s` = the setup entries of the two traces. -/
+def startAgrees {α : Type} [BEq α] (v s : List α) (vOk sOk : Bool) (callbackFailed : Bool) : Bool :=
+  s.isPrefixOf v && (callbackFailed || (s == v && vOk == sOk))
+
 end Casket.DispenserSpec
